@@ -953,16 +953,23 @@ void Parser::ParserImpl::loadVariable(const VariablePtr &variable, const XmlNode
         } else if (attribute->isType("initial_value")) {
             variable->setInitialValue(attribute->value());
         } else if (mParsing1XVersion && attribute->isType("public_interface")) {
-            if (variable->hasInterfaceType(Variable::InterfaceType::PRIVATE)) {
-                variable->setInterfaceType(Variable::InterfaceType::PUBLIC_AND_PRIVATE);
-            } else {
-                variable->setInterfaceType(Variable::InterfaceType::PUBLIC);
+            // Only "in" and "out" expose the variable; "none" is the CellML 1.x default and sets nothing.
+            const std::string interfaceValue = attribute->value();
+            if ((interfaceValue == "in") || (interfaceValue == "out")) {
+                if (variable->hasInterfaceType(Variable::InterfaceType::PRIVATE)) {
+                    variable->setInterfaceType(Variable::InterfaceType::PUBLIC_AND_PRIVATE);
+                } else {
+                    variable->setInterfaceType(Variable::InterfaceType::PUBLIC);
+                }
             }
         } else if (mParsing1XVersion && attribute->isType("private_interface")) {
-            if (variable->hasInterfaceType(Variable::InterfaceType::PUBLIC)) {
-                variable->setInterfaceType(Variable::InterfaceType::PUBLIC_AND_PRIVATE);
-            } else {
-                variable->setInterfaceType(Variable::InterfaceType::PRIVATE);
+            const std::string interfaceValue = attribute->value();
+            if ((interfaceValue == "in") || (interfaceValue == "out")) {
+                if (variable->hasInterfaceType(Variable::InterfaceType::PUBLIC)) {
+                    variable->setInterfaceType(Variable::InterfaceType::PUBLIC_AND_PRIVATE);
+                } else {
+                    variable->setInterfaceType(Variable::InterfaceType::PRIVATE);
+                }
             }
         } else {
             auto issue = Issue::IssueImpl::create();
